@@ -42,10 +42,20 @@ def build_problem(ps):
     raise MachineryError("unknown problem spec %r" % (ps,))
 
 
-def make_fault(fs):
-    """fs: None | ("transient", comp or None, k) | ("region", axis, thresh, comp or None)"""
+def make_fault(fs, x0=None):
+    """fs: None | ("transient", comp or None, k, val) | ("region", axis, thresh, comp or None, val) | ("atstart", comp, val)"""
     if fs is None:
         return None
+    if fs[0] == "atstart":
+        # the component is undefined exactly at the start point (a deterministic function of x, unlike "transient")
+        _, comp, val = fs
+        start = np.array(x0, dtype=float)
+
+        def fault(c, total_idx, idx, x):
+            xx = np.asarray(x, dtype=float)
+            return val if (c == comp and xx.shape == start.shape and bool((xx == start).all())) else None
+
+        return fault
     if fs[0] == "transient":
         _, comp, k, val = fs
 
@@ -136,6 +146,12 @@ def run_group(gs):
         if rs.get("x0_on_bounds"):
             x0 = np.where(np.isfinite(prob.var_lb), prob.var_lb, np.where(np.isfinite(prob.var_ub), prob.var_ub, x0))
         pk = dict(rs.get("params", {}))
+        if rs.get("x0_outside"):
+            # a user-supplied start outside the variable box (the only iterate the solver never projects)
+            d = float(rs["x0_outside"])
+            x0 = np.where(np.isfinite(prob.var_lb), prob.var_lb - d, np.where(np.isfinite(prob.var_ub), prob.var_ub + d, x0))
+        if rs.get("obj_limit_at_start"):
+            pk["obj_lower_limit"] = float(prob.obj(x0)) + float(rs["obj_limit_at_start"])
         level = getattr(logging, rs.get("loglevel", "WARNING"))
         logger.setLevel(level)
         tick, sched = make_clock(rs.get("clock"))
@@ -148,13 +164,13 @@ def run_group(gs):
                 solver._twin = rs.get("twin", "none")
                 solver._algkey = rs.get("algkey", 1)
                 if isinstance(solver.user_problem, RecordingProblem):
-                    solver.user_problem.fault = make_fault(rs.get("fault"))
+                    solver.user_problem.fault = make_fault(rs.get("fault"), x0)
             else:
                 if rs.get("same_problem_as") is not None:
                     rp = solvers[rs["same_problem_as"]].user_problem      # the very same problem object, another solver
-                    rp.fault = make_fault(rs.get("fault"))
+                    rp.fault = make_fault(rs.get("fault"), x0)
                 else:
-                    rp = RecordingProblem(prob, policy=rs.get("policy", "fresh"), fault=make_fault(rs.get("fault")))
+                    rp = RecordingProblem(prob, policy=rs.get("policy", "fresh"), fault=make_fault(rs.get("fault"), x0))
                 scaling = rs.get("scaling")
                 if scaling is not None:
                     from pygradflow.scale import Scaling
